@@ -1,69 +1,172 @@
+// C08 harness: "a block is sealed only by work on exactly its contents".
+//
+// Drives the REAL go-quai code (core.HeaderChain verifySeal / CheckWorkThreshold /
+// CheckIfValidWorkShare / UncleWorkShareClassification / verifyHeader / VerifyUncles through the
+// verif hook core/verif_c08_export.go with a stub PoW engine, and the exported donor-coinbase
+// helpers of core/types) and writes, per case, the inputs and the observed verdict as a Coq term of
+// type C08.case for the model comparison.  Independently of the model it evaluates the property's
+// predicates directly (monitors): big.Int acceptance arithmetic in multiplicative form, seal
+// monotonicity, per-field mutation sweeps of SealHash()/Hash()/Header.Hash(), coinbase commitment
+// and merkle binding with crypto/sha256, and "every single change of a sealed header or of its
+// AuxPoW parts is rejected".
 package main
 
 import (
 	"fmt"
 	"math/big"
+	"os"
+	"strings"
 
-	"github.com/dominant-strategies/go-quai/common"
-	"github.com/dominant-strategies/go-quai/consensus"
-	"github.com/dominant-strategies/go-quai/core"
-	"github.com/dominant-strategies/go-quai/core/rawdb"
-	"github.com/dominant-strategies/go-quai/core/types"
-	"github.com/dominant-strategies/go-quai/params"
 	"verifharness/hlib"
 )
 
-func try(name string, f func()) {
+type caseJS struct {
+	ID      int    `json:"id"`
+	Kind    string `json:"kind"`
+	Sub     uint64 `json:"sub"`     // sub-seed: the case is regenerated from (kind, sub, variant)
+	Variant string `json:"variant"` // corpus variant name ("" = random)
+	Desc    any    `json:"desc,omitempty"`
+}
+
+type H struct {
+	f   *hlib.Flags
+	rep *hlib.Report
+	cw  *hlib.CaseWriter
+	id  int
+	cur caseJS
+}
+
+var two256 = new(big.Int).Lsh(big.NewInt(1), 256)
+
+// emit records one executed case: Coq body term + description.
+func (h *H) emit(body string, desc any, nontrivial string) {
+	c := h.cur
+	c.ID = h.id
+	c.Desc = desc
+	h.cw.Add(fmt.Sprintf("(%d%%N, %s)", h.id, body), c)
+	h.rep.Evaluations++
+	h.rep.TracesValidated++
+	h.rep.Count("kind:" + c.Kind)
+	if nontrivial != "" {
+		h.rep.Nontrivial(c.Kind + "/" + nontrivial)
+	}
+	if h.id%97 == 0 {
+		h.rep.Sample(c)
+	}
+	h.id++
+}
+
+// fail reports a monitor failure for the current case.
+func (h *H) fail(sig, what string) {
+	c := h.cur
+	c.ID = h.id
+	h.rep.Fail(sig, what, c)
+}
+
+// guard runs f; a panic of the code under test is returned as a string (never crashes the harness).
+func guard(f func()) (panicked string) {
 	defer func() {
 		if r := recover(); r != nil {
-			fmt.Println(name, "PANIC:", r)
+			panicked = fmt.Sprint(r)
 		}
 	}()
 	f()
+	return ""
+}
+
+type gen struct {
+	kind   string
+	weight int
+	run    func(h *H, r *hlib.Rng, variant string)
+	corpus []string
+}
+
+func gens() []gen {
+	return []gen{
+		{"seal", 20, caseSeal, sealCorpus()},
+		{"thr", 8, caseThr, thrCorpus()},
+		{"ws", 12, caseWs, wsCorpus()},
+		{"class", 12, caseClass, classCorpus()},
+		{"ksd", 6, caseKsd, ksdCorpus()},
+		{"script", 12, caseScript, scriptCorpus()},
+		{"tx", 10, caseTx, txCorpus()},
+		{"merkle", 6, caseMerkle, merkleCorpus()},
+		{"auxroot", 3, caseAuxRoot, []string{"zero", "same"}},
+		{"vh", 14, caseVH, vhCorpus()},
+		{"uncle", 10, caseUncle, uncleCorpus()},
+		{"fields", 3, caseFields, []string{"prefork", "transition", "postfork-kawpow", "postfork-sha", "body"}},
+	}
+}
+
+func (h *H) runOne(g gen, sub uint64, variant string) {
+	h.cur = caseJS{Kind: g.kind, Sub: sub, Variant: variant}
+	r := hlib.NewRng(sub)
+	if p := guard(func() { g.run(h, r, variant) }); p != "" {
+		// a panic that a case generator did not attribute to the code under test: harness defect or unexpected crash
+		h.fail("harness-panic kind="+g.kind, "unexpected panic while running case: "+p)
+	}
 }
 
 func main() {
-	logger := hlib.QuietLogs()
-	db := rawdb.NewMemoryDatabase(logger)
-	e0 := &core.VerifC08StubEngine{}
-	e1 := &core.VerifC08StubEngine{}
-	loc := common.Location{0}
-	parent := types.EmptyWorkObject(common.REGION_CTX)
-	parent.WorkObjectHeader().SetLocation(common.Location{0, 0})
-	fmt.Println("parent hash", parent.Hash())
-	hc := core.VerifC08NewHeaderChain(db, loc, params.ModeNormal, 4, []consensus.Engine{e0, e1}, []common.Hash{parent.Hash()}, logger)
+	f := hlib.ParseFlags()
+	setup()
+	rep := hlib.NewReport("C08", "stub-engine sweep of (difficulty, PoW hash) over boundary values for verifySeal / workshare thresholds / share classification; "+
+		"donor coinbase parsers and merkle root on built, truncated and byte-mutated coinbases; verifyHeader and VerifyUncles on fully valid merge-mined "+
+		"headers (production-signed default templates and harness-signed ones) and on every single-field / single-byte-class mutation of them. "+
+		"Non-trivial = the case reaches the comparison against the target (seal/threshold), a parser gets past the first push, or a header/uncle case "+
+		"reaches the AuxPoW section; distinct by (kind, branch fingerprint)")
+	header := "From Coq Require Import List ZArith Bool.\nFrom GQ Require Import Model.C08.\nImport ListNotations.\nLocal Open Scope Z_scope.\n"
+	h := &H{f: f, rep: rep, cw: hlib.NewCaseWriter(f.Out, header, "C08.case", 40)}
+	gs := gens()
+	byKind := map[string]gen{}
+	for _, g := range gs {
+		byKind[g.kind] = g
+	}
+	if f.Replay != "" {
+		var c caseJS
+		hlib.ReadReplayCase(f.Replay, &c)
+		g, ok := byKind[c.Kind]
+		if !ok {
+			fmt.Fprintln(os.Stderr, "unknown case kind in replay file:", c.Kind)
+			os.Exit(2)
+		}
+		h.runOne(g, c.Sub, c.Variant)
+	} else {
+		// fixed corpus first
+		for _, g := range gs {
+			for i, v := range g.corpus {
+				h.runOne(g, uint64(1000+i), v)
+			}
+		}
+		rng := hlib.NewRng(f.Seed)
+		weights := make([]int, len(gs))
+		for i, g := range gs {
+			weights[i] = g.weight
+		}
+		for i := 0; i < f.N; i++ {
+			g := gs[rng.Pick(weights...)]
+			h.runOne(g, rng.Next(), "")
+		}
+	}
+	h.cw.Close()
+	rep.Write(f.Out)
+}
 
-	h := types.EmptyWorkObject(common.REGION_CTX)
-	wh := h.WorkObjectHeader()
-	wh.SetDifficulty(big.NewInt(0))
-	try("verifySeal d=0", func() { fmt.Println(hc.VerifySeal(wh)) })
-	try("thr d=0", func() { fmt.Println(hc.CheckWorkThreshold(wh, 3)) })
-	try("ws d=0", func() { fmt.Println(hc.CheckIfValidWorkShare(wh)) })
-	wh.SetDifficulty(big.NewInt(1))
-	e0.Hash = common.HexToHash("0xffffffffffffffffffffffffffffffffffffffffffffffffffffffffffffffff")
-	try("verifySeal d=1", func() { fmt.Println(hc.VerifySeal(wh)) })
-	wh.SetPrimeTerminusNumber(new(big.Int).SetUint64(params.KawPowForkBlock))
-	try("ws postfork d=1", func() { fmt.Println(hc.CheckIfValidWorkShare(wh)) })
-	wh.SetDifficulty(big.NewInt(0))
-	try("ws postfork d=0", func() { fmt.Println(hc.CheckIfValidWorkShare(wh)) })
-	try("class postfork d=0", func() { fmt.Println(hc.UncleWorkShareClassification(wh)) })
+// ---------- Coq printers ----------
 
-	// verifyHeader: region ctx child of genesis, with kawpow auxpow
-	t := types.DefaultKawpowAuxTemplate()
-	wh.SetDifficulty(big.NewInt(1000))
-	wh.SetLocation(common.Location{0, 0})
-	wh.SetTime(uint64(t.SignatureTime()) + 10)
-	h.Header().SetNumber(big.NewInt(1), common.REGION_CTX)
-	h.Header().SetParentHash(parent.Hash(), common.REGION_CTX)
-	wh.SetHeaderHash(h.Body().Header().Hash())
-	seal := wh.SealHash()
-	tx := types.NewAuxPowCoinbaseTx(t.PowID(), t.Height(), t.CoinbaseOut(), seal, t.SignatureTime())
-	root := types.CalculateMerkleRoot(t.PowID(), tx, t.MerkleBranch())
-	hdr := types.NewBlockHeader(t.PowID(), int32(t.Version()), t.PrevHash(), root, t.SignatureTime()+5, t.Bits(), 0, t.Height())
-	ap := types.NewAuxPow(t.PowID(), hdr, t.AuxPow2(), t.Sigs(), t.MerkleBranch(), tx)
-	wh.SetAuxPow(ap)
-	fmt.Println("seal unchanged by auxpow:", wh.SealHash() == seal)
-	try("verifyHeader", func() { fmt.Println("vh:", hc.VerifC08VerifyHeader(h, parent, false, int64(wh.Time()))) })
-	wh.SetTxHash(common.HexToHash("0x01"))
-	try("verifyHeader mut", func() { fmt.Println("vh:", hc.VerifC08VerifyHeader(h, parent, false, int64(wh.Time()))) })
+func coqZ(x *big.Int) string { return hlib.CoqBig(x) }
+func coqI(x int64) string    { return hlib.CoqBig(big.NewInt(x)) }
+func coqOptZ(x *big.Int) string {
+	if x == nil {
+		return "None"
+	}
+	return "(Some " + coqZ(x) + ")"
+}
+func coqOptBytes(b []byte, ok bool) string { return hlib.CoqOptBytes(b, ok) }
+func coqBranch(br [][]byte) string {
+	s := make([]string, len(br))
+	for i, b := range br {
+		s[i] = hlib.CoqBytes(b)
+	}
+	return "[" + strings.Join(s, "; ") + "]"
 }
